@@ -426,3 +426,183 @@ fn verif_native_confined_writes() {
     assert!(accepted > 0 && accepted < evaluated, "degenerate enumeration");
     verif_out(&format!("VERIF-NATIVE name={} evaluated={} distinct={}", name, evaluated, accepted));
 }
+
+// ---- a reference DEBUGGER (control oracle of DESIGN Appendix B, executable): commands act on a machine + breakpoint set ----
+#[derive(Clone, Copy, Debug, PartialEq)]
+enum RefCmd { Step, StepInto(u16), StepOut, Continue, BreakAdd(u16), BreakRemove(u16), Goto(u16), Reset, MoveReg(u16, u16) }
+struct RefDbg { m: RunState, initial: RunState, bps: Vec<u16>, stack: bool }
+fn ref_halt(w: u16) -> bool { w >> 12 == 0xF && w & 0xFF == 0x25 }
+fn ref_return(w: u16) -> bool { (w >> 12 == 0xC && (w >> 6) & 7 == 7) || (w >> 12 == 0xD && (w >> 10) & 3 == 2) }
+impl RefDbg {
+    fn user(&self, a: u16) -> bool { a >= self.m.orig && a < 0xFE00 }
+    /// resume: instructions execute one by one; before each but the first, a breakpoint at the PC pauses; HALT is never
+    /// executed; a PC outside user space pauses; `done(before_pc, word)` says whether the instruction about to run is the last
+    fn resume(&mut self, mode: RefCmd) {
+        if ref_halt(self.m.mem[self.m.pc as usize]) { return; }          // refused while sitting on HALT
+        let return_addr = self.m.pc.wrapping_add(1);
+        let mut left = if let RefCmd::StepInto(k) = mode { k.max(1) as u32 } else { 0 };
+        let mut first = true;
+        loop {
+            let pc = self.m.pc;
+            if !self.user(pc) { return; }
+            let w = self.m.mem[pc as usize];
+            if !first && self.bps.contains(&pc) { return; }
+            if ref_halt(w) { return; }
+            if mode == RefCmd::Step && !first && pc == return_addr { return; }
+            first = false;
+            self.m.pc = pc.wrapping_add(1);
+            self.m.execute(w);
+            match mode {
+                RefCmd::StepInto(_) => { left -= 1; if left == 0 { return; } }
+                RefCmd::StepOut => if ref_return(w) { return; },
+                _ => (),
+            }
+        }
+    }
+    fn apply(&mut self, c: RefCmd) {
+        match c {
+            RefCmd::Step | RefCmd::StepInto(_) | RefCmd::Continue => self.resume(c),
+            RefCmd::StepOut => if self.stack { self.resume(c) },
+            RefCmd::BreakAdd(a) => if self.user(a) && !self.bps.contains(&a) { self.bps.push(a); self.bps.sort(); },
+            RefCmd::BreakRemove(a) => if self.user(a) { self.bps.retain(|x| *x != a); },
+            RefCmd::Goto(a) => if self.user(a) { self.m.pc = a; },
+            RefCmd::Reset => self.m = self.initial.clone(),
+            RefCmd::MoveReg(r, v) => self.m.reg[r as usize] = v,
+        }
+    }
+}
+fn ref_cmd_text(c: RefCmd) -> String {
+    match c { RefCmd::Step => "step".into(), RefCmd::StepInto(k) => format!("step into {}", k), RefCmd::StepOut => "step out".into(), RefCmd::Continue => "continue".into(),
+        RefCmd::BreakAdd(a) => format!("break add x{:04X}", a), RefCmd::BreakRemove(a) => format!("break remove x{:04X}", a), RefCmd::Goto(a) => format!("goto x{:04X}", a),
+        RefCmd::Reset => "reset".into(), RefCmd::MoveReg(r, v) => format!("move r{} x{:04X}", r, v) }
+}
+
+/// nested CALL/RETS, a JSR/RET leaf, a counted loop, a `.break` inside the loop, HALT in the middle (subroutines after it)
+const Q1: &str = ".orig x3000\nand r0,r0,#0\nadd r0,r0,#2\nloop call outer\n.break\nadd r0,r0,#-1\nbrp loop\njsr leaf\nhalt\nouter add r1,r1,#1\ncall inner\nadd r1,r1,#1\nrets\ninner add r2,r2,#1\nrets\nleaf add r3,r3,#1\nret\n";
+/// the same shape in the JSR/RET convention only (usable without the stack feature), recursion through a counter, HALT last
+const Q2: &str = "and r0,r0,#0\nadd r0,r0,#2\nst r7, save\nloop jsr sub\nadd r0,r0,#-1\nbrp loop\n.break\n.break\nld r7, save\nbrnzp end\nsub add r1,r1,#1\nadd r4,r7,#0\nadd r1,r1,#0\nbrz skip\nskip add r7,r4,#0\nret\nsave .fill x0\nend halt\n";
+
+/// C10 / C11 / C16 over whole sessions against the reference debugger: 2 programs (Q1 with `-f stack`, Q2 without) x EVERY
+/// sequence of <= 4 commands over 11 commands { step, step into 1, step into 3, step into 0, step out, continue, break add A,
+/// break remove A, break remove B (the .break), goto C, reset } followed by `exit`: the paused machine AND the breakpoint list
+/// equal the reference's; every session terminates
+#[test]
+fn verif_native_session_reference() {
+    let name = "verif_native_session_reference";
+    let mut evaluated = 0u64;
+    for (prog, stack, a, b, c) in [(Q1, true, 0x3008u16, 0x3003u16, 0x3005u16), (Q2, false, 0x300Bu16, 0x3006u16, 0x3003u16)] {
+        let cmds = [RefCmd::Step, RefCmd::StepInto(1), RefCmd::StepInto(3), RefCmd::StepInto(0), RefCmd::StepOut, RefCmd::Continue,
+            RefCmd::BreakAdd(a), RefCmd::BreakRemove(a), RefCmd::BreakRemove(b), RefCmd::Goto(c), RefCmd::Reset];
+        let n = cmds.len();
+        for len in 1..=(if verif_deep() { 5usize } else { 4 }) {
+            for code in 0..n.pow(len as u32) {
+                let mut x = code;
+                let mut seq = Vec::new();
+                for _ in 0..len { seq.push(cmds[x % n]); x /= n; }
+                let script: String = seq.iter().map(|c| ref_cmd_text(*c) + "; ").collect::<String>() + "exit";
+                evaluated += 1;
+                let s2 = script.clone();
+                let seq2 = seq.clone();
+                let r = with_timeout(20, move || verif_catch(move || {
+                    let _ = verif_catch(|| crate::features::init(if stack { "stack".parse().unwrap() } else { Default::default() }));
+                    crate::output::Output::set_minimal(true);
+                    let mut e = build(prog, Some(&s2)); e.run();
+                    let got_b = crate::debugger::verif_native_debugger_probe::verif_breakpoints(e.debugger.as_ref().unwrap());
+                    let fresh = build(prog, Some("exit"));
+                    let b0 = crate::debugger::verif_native_debugger_probe::verif_breakpoints(fresh.debugger.as_ref().unwrap());
+                    let mut reference = RefDbg { m: fresh.state.clone(), initial: fresh.state, bps: b0, stack };
+                    for c in &seq2 { reference.apply(*c); }
+                    (e.state, got_b, reference.m, reference.bps)
+                }));
+                let fail = |d: String| { verif_out(&format!("VERIF-COUNTEREXAMPLE name={} input=program {:?} ({}) script {:?} detail={}", name, prog, if stack { "-f stack" } else { "no flag" }, script, d)); std::process::exit(1); };
+                match r {
+                    None => fail("session does not terminate".to_string()),
+                    Some(Err(m)) => fail(format!("panic: {}", m)),
+                    Some(Ok((st, bl, rm, rb))) => {
+                        if let Some(d) = same_state(&st, &rm) { fail(format!("paused machine differs from the reference debugger's: {}", d)); }
+                        if bl != rb { fail(format!("breakpoint list {:04x?}, reference {:04x?}", bl, rb)); }
+                    }
+                }
+            }
+        }
+    }
+    verif_out(&format!("VERIF-NATIVE name={} evaluated={} distinct={}", name, evaluated, evaluated));
+}
+
+const P10: &str = ".orig x3000\nfirst add r1,r1,#1\nadd r1,r1,#1\nadd r1,r1,#1\nadd r1,r1,#1\nadd r1,r1,#1\nhalt\ndata .fill x9234\nother .fill x5678\nptr .fill x3007\nspare .fill x0\n";
+fn ref_flag(v: u16) -> RunFlag { if v == 0 { RunFlag::Z } else if v & 0x8000 != 0 { RunFlag::N } else { RunFlag::P } }
+
+/// C15 against a semantics written here from the ISA: 5 PC situations (origin; after two steps; x30F0, beyond the labels; x2FFE and
+/// x2F10, strayed BELOW the origin through `eval jmp`) x 27 well-formed instructions (operate forms at the immediate
+/// limits, LD/LDI/LEA/ST/STI on labels before and after the PC, LDR/STR with offsets, JMP, RET) x 18 refused texts (BR*, RTI, HALT,
+/// unknown / halting trap vectors, missing / surplus / wrong-kind operands, directives): the WHOLE machine after
+/// `eval T; move spare x0BAD; exit` is the expected one — a label is its address at every PC, the PC moves only for jumps, a
+/// refused text changes nothing, the session goes on
+#[test]
+fn verif_native_eval_reference() {
+    let name = "verif_native_eval_reference";
+    let mut evaluated = 0u64;
+    let setup = "move r1 x8001; move r2 x0005; move r6 x3007; move r3 x7FFF; ";
+    let situations: [(&str, u16); 5] = [("", 0x3000), ("step into 2; ", 0x3002), ("goto x30F0; ", 0x30F0), ("move r0 x2FFE; eval jmp r0; ", 0x2FFE), ("move r0 x2F10; eval jmp r0; ", 0x2F10)];
+    type Eff = Box<dyn Fn(&mut RunState) + Send>;
+    let setr = |r: usize, f: Box<dyn Fn(&RunState) -> u16 + Send>| -> Eff { Box::new(move |s: &mut RunState| { let v = f(s); s.reg[r] = v; s.flag = ref_flag(v); }) };
+    let nothing = || -> Eff { Box::new(|_s: &mut RunState| ()) };
+    let mk = move || -> Vec<(&'static str, Eff)> { vec![
+        ("add r4, r1, #15", setr(4, Box::new(|s| s.reg[1].wrapping_add(15)))),
+        ("add r4, r1, #-16", setr(4, Box::new(|s| s.reg[1].wrapping_sub(16)))),
+        ("add r4, r1, r3", setr(4, Box::new(|s| s.reg[1].wrapping_add(s.reg[3])))),
+        ("ADD R1, R1, R1", setr(1, Box::new(|s| s.reg[1].wrapping_add(s.reg[1])))),
+        ("and r4, r1, xFFF0", setr(4, Box::new(|s| s.reg[1] & 0xFFF0))),
+        ("and r4, r1, #0", setr(4, Box::new(|_s| 0))),
+        ("and r5, r3, r1", setr(5, Box::new(|s| s.reg[3] & s.reg[1]))),
+        ("not r5, r1", setr(5, Box::new(|s| !s.reg[1]))),
+        ("ld r4, data", setr(4, Box::new(|s| s.mem[0x3006]))),
+        ("ld r4, first", setr(4, Box::new(|s| s.mem[0x3000]))),
+        ("ld r4, spare", setr(4, Box::new(|s| s.mem[0x3009]))),
+        ("ldi r4, ptr", setr(4, Box::new(|s| s.mem[s.mem[0x3008] as usize]))),
+        ("lea r5, other", setr(5, Box::new(|_s| 0x3007))),
+        ("lea r5, first", setr(5, Box::new(|_s| 0x3000))),
+        ("st r1, other", Box::new(|s: &mut RunState| { s.mem[0x3007] = s.reg[1]; })),
+        ("st r3, first", Box::new(|s: &mut RunState| { s.mem[0x3000] = s.reg[3]; })),
+        ("sti r2, ptr", Box::new(|s: &mut RunState| { let a = s.mem[0x3008] as usize; s.mem[a] = s.reg[2]; })),
+        ("ldr r5, r6, #0", setr(5, Box::new(|s| s.mem[s.reg[6] as usize]))),
+        ("ldr r5, r6, #-1", setr(5, Box::new(|s| s.mem[s.reg[6].wrapping_sub(1) as usize]))),
+        ("ldr r5, r6, #2", setr(5, Box::new(|s| s.mem[s.reg[6].wrapping_add(2) as usize]))),
+        ("ldr r5, r6, #-32", setr(5, Box::new(|s| s.mem[s.reg[6].wrapping_sub(32) as usize]))),
+        ("str r1, r6, #1", Box::new(|s: &mut RunState| { let a = s.reg[6].wrapping_add(1) as usize; s.mem[a] = s.reg[1]; })),
+        ("str r2, r6, #-7", Box::new(|s: &mut RunState| { let a = s.reg[6].wrapping_sub(7) as usize; s.mem[a] = s.reg[2]; })),
+        ("str r6, r6, #31", Box::new(|s: &mut RunState| { let a = s.reg[6].wrapping_add(31) as usize; s.mem[a] = s.reg[6]; })),
+        ("jmp r6", Box::new(|s: &mut RunState| { s.pc = s.reg[6]; })),
+        ("JMP R3", Box::new(|s: &mut RunState| { s.pc = s.reg[3]; })),
+        ("ret", Box::new(|s: &mut RunState| { s.pc = s.reg[7]; })),
+        // refused: no effect
+        ("br data", nothing()), ("brnzp first", nothing()), ("brz #1", nothing()), ("rti", nothing()), ("halt", nothing()), ("trap x25", nothing()),
+        ("trap x30", nothing()), ("trap x00", nothing()), ("add r0, r0", nothing()), ("add r0, r0, #1 r2", nothing()), ("add r0, r0, #16", nothing()),
+        ("ld r0, nolabel", nothing()), ("ld r0, r1", nothing()), ("add r0, r0, data", nothing()), ("ldr r0, r1, #32", nothing()), (".fill x1", nothing()),
+        ("not r1", nothing()), ("jmp data", nothing()),
+    ] };
+    let count = mk().len();
+    for (prefix, pc) in situations {
+        for idx in 0..count {
+            evaluated += 1;
+            let text = mk()[idx].0;
+            let script_a = format!("{}{}exit", setup, prefix);
+            let script_b = format!("{}{}eval {}; move spare x0BAD; exit", setup, prefix, text);
+            let sb = script_b.clone();
+            let r = with_timeout(20, move || verif_catch(move || {
+                init();
+                let mut before = build(P10, Some(&script_a)); before.run();
+                let mut after = build(P10, Some(&sb)); after.run();
+                let mut want = before.state.clone();
+                if want.pc != pc { return Some(format!("test setup: PC is {:04x}, expected {:04x}", want.pc, pc)); }
+                let effects = mk();
+                (effects[idx].1)(&mut want);
+                want.mem[0x3009] = 0x0BAD;
+                same_state(&after.state, &want)
+            }));
+            let fail = |d: String| { verif_out(&format!("VERIF-COUNTEREXAMPLE name={} input=script {:?} (PC {:04x}) detail=machine (left) differs from the ISA's (right): {}", name, script_b, pc, d)); std::process::exit(1); };
+            match r { None => fail("session does not terminate".to_string()), Some(Err(m)) => fail(format!("panic: {}", m)), Some(Ok(Some(d))) => fail(d), Some(Ok(None)) => () }
+        }
+    }
+    verif_out(&format!("VERIF-NATIVE name={} evaluated={} distinct={}", name, evaluated, evaluated));
+}
